@@ -137,7 +137,7 @@ C08_SpendExact == Step /\ IsOk("execute") /\ E.by \notin admins /\ E.by \in Addr
   ELSE /\ al[k].has
        /\ \A d \in Denom : /\ al[k].c[d] >= SumD(out', d)
                            /\ al'[k].c[d] = al[k].c[d] - SumD(out', d)
-       /\ al'[k].has => al'[k].exp = al[k].exp
+       /\ al'[k].has /\ al'[k].exp = al[k].exp      \* spending deducts coins and nothing else: the deadline the admins set stays
 
 \* history: what a subkey relayed never exceeds what admins granted it, per denomination
 \* (slack = granted - relayed - reported remainder, inferred from the calls, see SlackAfter)
@@ -209,7 +209,7 @@ C17_GrantsByAdmins == Step =>
             Ok /\ E.act \in AllowanceActs /\ E.by \in admins /\ E.args.spender = k
        \* an Execute (whatever it relays, also to the proxy itself) can only consume the caller's own allowance
        /\ (al'[k] # al[k] /\ E.act = "execute") =>
-            Ok /\ E.by = k /\ \A d \in Denom : al'[k].c[d] <= al[k].c[d]
+            Ok /\ E.by = k /\ al'[k].exp = al[k].exp /\ \A d \in Denom : al'[k].c[d] <= al[k].c[d]
 \* an accepted instantiate installs exactly the requested admins and flag, and no grants
 C17_Init == E.act = "reset" /\ Ok =>
   /\ admins' = SeqSet(E.cfg.admins) /\ mutable' = E.cfg.mutable
